@@ -2,10 +2,18 @@ package yqlib
 
 import (
 	"container/list"
+	"fmt"
 )
+
+// an expression held in the data can eval itself; stop long before the stack runs out
+const maxEvalDepth = 100
 
 func evalOperator(d *dataTreeNavigator, context Context, expressionNode *ExpressionNode) (Context, error) {
 	log.Debugf("Eval")
+	if context.evalDepth >= maxEvalDepth {
+		return Context{}, fmt.Errorf("eval: expressions nested more than %v deep", maxEvalDepth)
+	}
+	context.evalDepth++
 	pathExpStrResults, err := d.GetMatchingNodes(context.ReadOnlyClone(), expressionNode.RHS)
 	if err != nil {
 		return Context{}, err
